@@ -3,6 +3,7 @@ import Proofs.NTInv
 import Proofs.NTInvFallback
 import Proofs.NTJacobi
 import Proofs.NTJacobiDepth
+import Proofs.NTJacobiDepth2
 import Proofs.NTGuards
 import Proofs.NTSqrt
 import Proofs.NTCip
@@ -84,6 +85,23 @@ modelled. -/
 theorem jacobi_recursion_depth (a : Int) (n : Nat) (hn3 : 3 ≤ n) (hodd : n % 2 = 1) :
     jacobiF (2 * Nat.log2 n + 3) a n = .ok (jacobiSym a n) :=
   jacobi_depth a n hn3 hodd
+
+/-- **tight recursion depth** (supersedes the bound above): `⌊log₂ n⌋ + 3` nested calls always suffice — for an `n` of `k`
+bits that is at most `k + 2` frames, ONE frame per bit.  Potential argument: `n + (odd part of a mod n)` at least halves in
+every recursive call (`Proofs/NTJacobiDepth2`).  So for every modulus in use here (≤ 521 bits: ≤ 523 frames) and in fact for
+every modulus below ≈ 900 bits CPython's default recursion limit of 1000 (minus the caller's frames) is not hit; the bound
+is sharp up to the constant (`n_k = n_{k-1} + 2·n_{k-2}` forces ≈ log₂ n frames).  From ≈ 1000-bit moduli on a
+`RecursionError` is possible for adversarial `a` and is NOT modelled. -/
+theorem jacobi_recursion_depth_tight (a : Int) (n : Nat) (hn3 : 3 ≤ n) (hodd : n % 2 = 1) :
+    jacobiF (Nat.log2 n + 3) a n = .ok (jacobiSym a n) :=
+  jacobi_depth_tight a n hn3 hodd
+
+/-- non-vacuity / sharpness witness: a 9-bit modulus that needs more than 6 nested calls (so the constant cannot drop below
+`log₂ n − 2`), while `log₂ n + 3 = 11` suffice -/
+example : jacobiF 6 282 341 = .error .other ∧ jacobiF 11 282 341 = .ok (jacobiSym 282 341) := by
+  constructor
+  · decide +kernel
+  · exact jacobi_recursion_depth_tight 282 341 (by decide) (by decide)
 
 /-- the definition of `jacobiSym` spelled out: product of Legendre symbols over the prime factorisation -/
 theorem jacobi_is_product (a : Int) (n : Nat) (hn3 : 3 ≤ n) (hodd : n % 2 = 1) :
